@@ -84,7 +84,19 @@ def gen_pic_program(rnd):
             stmts.append(apm.data(".word", diff(), apm.num(rnd.randrange(0x10000)), ("bin", "-", ("dot",), ("sym", rnd.choice(labels)))))
         else:
             stmts.append(apm.blk(".blkb", apm.num(2 * rnd.randrange(0, 6))))
-    return apm.Program([apm.SrcFile("f0.mac", stmts)])
+    aux = {}
+    if rnd.random() < 0.25:
+        # an included module that states its own origin (an overlay): its labels are fixed numbers whatever the base of the program is, so
+        # its code - absolute references to its own labels included - is the same at every base; the program goes on after it
+        org = rnd.choice([0o40000, 0o100000, 0o2000, 0o157000])
+        ov = [rnd.choice([apm.dotassign(apm.num(org)), apm.link(apm.num(org))]), apm.label("ov0"),
+              apm.insn("mov", ("imm", ("sym", "ov1")), ("reg", rnd.randrange(6))), apm.insn(rnd.choice(["clr", "inc"]), ("rel", ("sym", "ov1")))]
+        if rnd.random() < 0.6:
+            ov.append(apm.insn(rnd.choice(["br", "bne"]), ("br", ("sym", rnd.choice(["ov0", "ov1"])))))
+        ov += [apm.label("ov1"), apm.data(".word", ("sym", "ov0"), ("bin", "-", ("sym", "ov1"), ("sym", "ov0")), ("sym", "ov1"))]
+        aux["ovl9.mac"] = apm.SrcFile("ovl9.mac", ov)
+        stmts.insert(rnd.randrange(1, len(stmts) + 1), apm.include("ovl9.mac"))
+    return apm.Program([apm.SrcFile("f0.mac", stmts)], aux=aux)
 
 
 def coefficients(prog, b1, b2):
@@ -229,7 +241,7 @@ def run_case(case, cnt=None, root=None, coef_set=None):
             size = len(o0.code)
             inside = 2 * srnd.randrange(1, max(2, size // 2)) if size > 4 else 2
             bases = [0o40000, 0o157776, 0o177776 - 2 * srnd.randrange(0, 8), (0o200000 - inside) & ~1, 0]
-            if not any(st.k in ("data", "wordlist") for st in prog.files[0].stmts):
+            if not any(st.k in ("data", "wordlist") for st in prog.files[0].stmts) and not prog.aux:
                 # code without word data is just as position-independent at an odd base (only word DATA must be aligned)
                 bases += [0o1001, 0o157777, 0o40001]
                 cnt["pic_odd_bases"] = cnt.get("pic_odd_bases", 0) + 1
